@@ -40,6 +40,7 @@ def e2e(ctx, build, scratch, exe, cat, model, tier):
     system = emusrv.System(spec, require=req, extra_meta={"*": {model: {"can_breakdown": True}}})
     td = system.write(scratch.sub("t-" + model))
     pool = ServerPool(exe, td, ["-b"])
+    pool.meta = system.meta if "system" in dir() else None
     try:
         if c["pv"] not in pool.local.pvts:
             raise InfraError("no %s trace with -b" % c["pv"])
